@@ -22,6 +22,7 @@ RULE = ("correspondence: every (shape, key) case is run through cspuz's IntArray
         "chained indexing a[k1][k2]; histories (same key object twice, result mutated then re-indexed, array data and "
         "key unchanged, flatten/reshape/1-D slices do not alias); arrays constructed from nested one-shot iterables.")
 TRUSTED = [
+    "the fail-closed pure-integer translator harness/pyint_translate.py (array.py::_range_size -> Gen/PyIntArray.v on every run; theorem range_size_from_source)",
     "CPython slice.indices / range / list indexing semantics as transcribed in Array/Slice.v (slice_indices, py_range, py_index); validated on every run against the real interpreter (kind 'spec-vs-pylist')",
     "reading of the property: an integer index on an axis raises IndexError exactly when it is out of range for that axis (also when the other axis selects nothing)",
 ]
